@@ -444,6 +444,203 @@ theorem C07_wrap_decomp (st : PState) (s : List Char) :
       · exact a1 c hc
       · exact a2 c hc
 
+/-! ### white space that separates two fragments is never removed entirely -/
+
+def EndsWs (t : List Char) : Prop := ∃ c, t.getLast? = some c ∧ (c = ' ' ∨ c = '\n')
+
+/-- `printedSpaceLast` is only set when the text ends in white space -/
+def Inv (st : PState) : Prop := st.spaceLast = true → EndsWs st.text
+
+theorem endsWs_append_newline (t : List Char) (n : Nat) : EndsWs (t ++ newlinePiece n) := by
+  cases n with
+  | zero => exact ⟨'\n', by simp [newlinePiece], Or.inr rfl⟩
+  | succ n =>
+    refine ⟨' ', ?_, Or.inl rfl⟩
+    have : t ++ newlinePiece (n + 1) = (t ++ '\n' :: List.replicate n ' ') ++ [' '] := by
+      simp [newlinePiece, List.replicate_succ']
+    rw [this, List.getLast?_append]; rfl
+
+theorem strip_false_head (s rest : List Char) (h : s = ' ' :: rest) : (strip false s).head? = some ' ' := by
+  subst h
+  induction rest with
+  | nil => simp [strip]
+  | cons c rest ih =>
+    by_cases hc : c = ' '
+    · subst hc
+      have : strip false (' ' :: ' ' :: rest) = strip false (' ' :: rest) := by simp [strip]
+      rw [this]; exact ih
+    · simp [strip, hc]
+
+theorem strip_false_nil (s : List Char) (h : strip false s = []) : s = [] := by
+  cases s with
+  | nil => rfl
+  | cons c rest =>
+    by_cases hc : c = ' '
+    · have := strip_false_head (c :: rest) rest (by rw [hc])
+      rw [h] at this; simp at this
+    · simp [strip, hc] at h
+
+theorem inv_emit_nonempty (st : PState) (s : List Char) (d : Bool) (hs : s ≠ []) : Inv (emit st s d) := by
+  intro h
+  obtain ⟨c, hc⟩ : ∃ c, s.getLast? = some c := by
+    cases hl : s.getLast? with
+    | none => simp [List.getLast?_eq_none_iff] at hl; exact absurd hl hs
+    | some c => exact ⟨c, rfl⟩
+  refine ⟨c, ?_, ?_⟩
+  · rw [text_emit, List.getLast?_append, hc]; rfl
+  · simp [emit, lastIsSpace, hc] at h; exact Or.inl h
+
+theorem inv_raw (st : PState) (s : List Char) (h : Inv st) : Inv (raw st s) := by
+  by_cases hs : s = []
+  · subst hs
+    intro hsl
+    have : (raw st []).text = st.text := by simp [text_raw]
+    rw [this]
+    apply h
+    simpa [raw, emit, lastIsSpace] using hsl
+  · have := inv_emit_nonempty st s st.spaceLast hs
+    intro hsl
+    have ht : (raw st s).text = (emit st s st.spaceLast).text := by simp [raw, emit, PState.text]
+    rw [ht]; apply this
+    simpa [raw, emit] using hsl
+
+/-- the state `wrap` continues from after its optional line break -/
+def wrapMid (st : PState) (s : List Char) : PState :=
+  if wrapBreaks st (strip st.spaceLast s).length
+  then { emit st (newlinePiece st.indent2) false with curpos := st.indent2 } else st
+
+theorem wrap_eq (st : PState) (s : List Char) :
+    wrap st s = { emit (wrapMid st s) (strip (wrapMid st s).spaceLast (strip st.spaceLast s))
+        (decide ((strip (wrapMid st s).spaceLast (strip st.spaceLast s)).length < s.length) || (wrapMid st s).spaceLast) with
+      curpos := advance (wrapMid st s).curpos (strip (wrapMid st s).spaceLast (strip st.spaceLast s)) } := by
+  simp [wrap, wrapMid]
+
+theorem text_break (st : PState) :
+    ({ emit st (newlinePiece st.indent2) false with curpos := st.indent2 } : PState).text = st.text ++ newlinePiece st.indent2 := by
+  simp [emit, PState.text]
+
+theorem inv_wrapMid (st : PState) (s : List Char) (h : Inv st) : Inv (wrapMid st s) := by
+  unfold wrapMid
+  split
+  · intro _; rw [text_break]; exact endsWs_append_newline _ _
+  · exact h
+
+theorem inv_wrap (st : PState) (s : List Char) (h : Inv st) : Inv (wrap st s) := by
+  have hm := inv_wrapMid st s h
+  rw [wrap_eq]
+  generalize hmid : wrapMid st s = m at hm ⊢
+  generalize hs2 : strip m.spaceLast (strip st.spaceLast s) = s2
+  by_cases he : s2 = []
+  · subst he
+    intro hsl
+    have ht : ({ emit m [] (decide (([] : List Char).length < s.length) || m.spaceLast) with curpos := advance m.curpos [] } : PState).text = m.text := by
+      simp [emit, PState.text]
+    rw [ht]
+    by_cases hml : m.spaceLast = true
+    · exact hm hml
+    · -- nothing is left of the fragment although no blank was printed last: then a line break was inserted
+      have hmf : m.spaceLast = false := by simpa using hml
+      rw [hmf] at hs2
+      have h1 := strip_false_nil _ hs2
+      unfold wrapMid at hmid
+      split at hmid
+      · rw [← hmid, text_break]; exact endsWs_append_newline _ _
+      · rw [← hmid] at hmf
+        rw [hmf] at h1
+        have h0 := strip_false_nil _ h1
+        subst h0
+        simp [emit, lastIsSpace, hmf] at hsl
+        rw [← hmid] at hsl; simp [hmf] at hsl
+  · have := inv_emit_nonempty m s2 (decide (s2.length < s.length) || m.spaceLast) he
+    intro hsl
+    have ht : ({ emit m s2 (decide (s2.length < s.length) || m.spaceLast) with curpos := advance m.curpos s2 } : PState).text
+        = (emit m s2 (decide (s2.length < s.length) || m.spaceLast)).text := by simp [emit, PState.text]
+    rw [ht]; apply this
+    simpa [emit] using hsl
+
+/-- **White space between fragments survives wrapping, at every width.**  If a fragment begins with a blank (it is
+separated from what was printed before), then in the output the rest of the fragment is still preceded by white space:
+either one of its own blanks remains, or the text printed before it ends in a blank or newline.  Together with
+`C07_wrap_decomp` (only leading blanks are dropped, only "newline + indent" is inserted): wrapping changes the amount of white
+space at fragment boundaries and nothing else, so two tokens are never joined. -/
+theorem C07_wrap_separation (st : PState) (hinv : Inv st) (s rest : List Char) (hs : s = ' ' :: rest) :
+    ∃ pre body, (wrap st s).text = pre ++ body ∧ (∃ k, body = s.drop k ∧ ∀ x ∈ s.take k, x = ' ')
+      ∧ (EndsWs pre ∨ body.head? = some ' ') := by
+  have hm := inv_wrapMid st s hinv
+  obtain ⟨k1, h1, a1⟩ := strip_eq_drop st.spaceLast s
+  obtain ⟨k2, h2, a2⟩ := strip_eq_drop (wrapMid st s).spaceLast (strip st.spaceLast s)
+  refine ⟨(wrapMid st s).text, strip (wrapMid st s).spaceLast (strip st.spaceLast s), ?_, ⟨k1 + k2, ?_, ?_⟩, ?_⟩
+  · rw [wrap_eq]; simp [emit, PState.text]
+  · rw [h2, h1, List.drop_drop]
+  · intro c hc
+    rw [← List.take_append_drop k1 s, List.take_add] at hc
+    rw [h1] at a2
+    simp only [List.take_append_drop] at hc
+    rcases List.mem_append.mp hc with hc | hc
+    · exact a1 c hc
+    · exact a2 c hc
+  · by_cases hml : (wrapMid st s).spaceLast = true
+    · exact Or.inl (hm hml)
+    · have hmf : (wrapMid st s).spaceLast = false := by simpa using hml
+      -- no blank was printed last: was a line break inserted?
+      by_cases hb : wrapBreaks st (strip st.spaceLast s).length = true
+      · left
+        simp only [wrapMid, hb, if_true]; rw [text_break]; exact endsWs_append_newline _ _
+      · right
+        have hmid : wrapMid st s = st := by simp [wrapMid, hb]
+        rw [hmid] at hmf ⊢
+        rw [hmf]
+        obtain ⟨c', r', hh⟩ : ∃ c' r', strip false s = c' :: r' := by
+          have := strip_false_head s rest hs
+          cases hst : strip false s with
+          | nil => rw [hst] at this; simp at this
+          | cons c' r' => exact ⟨c', r', rfl⟩
+        have hc' : c' = ' ' := by
+          have := strip_false_head s rest hs; rw [hh] at this; simpa using this
+        subst hc'
+        exact strip_false_head _ r' hh
+
+theorem inv_maybeBreak (st : PState) (len : Nat) (first : Bool) (h : Inv st) : Inv (maybeBreak st len first) := by
+  unfold maybeBreak
+  split
+  · split <;> exact inv_raw _ _ h
+  · split
+    · exact inv_raw _ _ h
+    · exact h
+
+theorem inv_breakPieces : ∀ (ps : List (List Char)) (st : PState) (first : Bool), Inv st → Inv (breakPieces st ps first) := by
+  intro ps
+  induction ps with
+  | nil => intro st first h; exact h
+  | cons p ps ih => intro st first h; exact ih _ _ (inv_raw _ _ (inv_maybeBreak _ _ _ h))
+
+theorem inv_breakLongStr (st : PState) (s : List Char) (paren : Bool) (h : Inv st) : Inv (breakLongStr st s paren) := by
+  unfold breakLongStr
+  simp only []
+  split
+  · exact inv_raw _ _ h
+  · apply inv_raw
+    apply inv_breakPieces
+    split
+    · exact inv_wrap _ _ h
+    · exact h
+
+/-- the premise of `C07_wrap_separation` holds in every state the layout engine reaches: it is an invariant of `raw`, `wrap`
+and `breakLongStr`, hence of every fragment list, from any state that satisfies it (the initial state does) -/
+theorem C07_layout_invariant (fs : List Frag) : ∀ st : PState, Inv st → Inv (run st fs) := by
+  induction fs with
+  | nil => intro st h; exact h
+  | cons f fs ih =>
+    intro st h
+    simp only [run, List.foldl_cons]
+    apply ih
+    cases f with
+    | raw s => exact inv_raw _ _ h
+    | wrap s => exact inv_wrap _ _ h
+    | str s p => exact inv_breakLongStr _ _ _ h
+
+example : Inv ({} : PState) := by intro h; simp at h
+
 theorem nonWs_newlinePiece (n : Nat) : nonWs (newlinePiece n) = [] := by
   simp [nonWs, newlinePiece, isWs, List.filter_replicate]
 
